@@ -23,6 +23,10 @@ CHECKS["C06"] = dict(level="model_checking", ref="DESIGN.md §5 C06, §9", thoro
    text="explicit-state exploration of the parse/format graph: every accepted text of four exhaustively enumerated families (all type terms up to weight 4 (5 thorough) over a syntax alphabet covering every construct and literal kind; rule headers with generics, sockets, /=, //=, group rules; all ordered pairs/triples of representative rules; comma-free, multi-line and tab/CRLF respellings) is a state, its formatting and re-formatting are the transitions; on every state the real parser and printer are run and the formatted text must be accepted, parse to the same AST up to positions/comments/commas, and re-format to itself",
    note="purely relational on the real parser and printer (no model trusted); commented documents are C16's space",
    tech="bounded-exhaustive enumeration of documents, round-trip (metamorphic) oracle on the real parser and printer")
+CHECKS["C12"] = dict(level="model_checking", ref="DESIGN.md §5 C12, §9", thorough=True,
+   text="explicit-state enumeration against a reference model: (A) every document of 1-4 (thorough 5) rules over 26 rule variants (names a, b, $a, $$a x generics x '=', '/=', '//=' x type/group bodies), reference = first plain '=' of an already defined or incremented name, parser must reject exactly then and report that rule's name, line and offset; (B) every one of 34 syntactic reference positions x 52 fillers (defined, every prelude name, own / foreign generic parameter, sockets, undefined look-alikes) singly and in pairs through CDDL::from_slice, reference = reject iff a reference position holds an undefined name",
+   note="the two reference models are a dozen lines each (mc/src/c12.rs first_duplicate / expect_undefined); documents outside the crate's grammar are skipped and counted",
+   tech="bounded-exhaustive enumeration of rule sequences and reference placements + reference model conformance")
 NA = {}
 def main():
     props=[json.loads(l)["id"] for l in open("/verif/properties.jsonl")]
